@@ -6,15 +6,34 @@ SPEC = {
     "units": [
         {"name": "history", "pkg": O4, "kind": "rapid", "run": "^TestVerifC18History$",
          "quick": {"checks": 600, "shards": 1, "timeout": 300},
-         "thorough": {"checks": 400, "shards": 16, "timeout": 900}},
+         "thorough": {"checks": 2000, "shards": 16, "timeout": 900}},
         # six test functions (one per start kind), each one rapid.Check: checks = traced starts per kind and shard
         {"name": "crash-start", "pkg": O4, "kind": "rapid", "run": "^TestVerifC18CrashStart",
-         "quick": {"checks": 3, "ntests": 6, "shards": 1, "timeout": 300, "shrinktime": "10s"},
-         "thorough": {"checks": 8, "ntests": 6, "shards": 6, "timeout": 900, "shrinktime": "30s"}},
+         "quick": {"checks": 3, "ntests": 6, "shards": 1, "timeout": 300, "shrinktime": "4s"},
+         "thorough": {"checks": 30, "ntests": 6, "shards": 8, "timeout": 1200, "shrinktime": "30s"}},
         {"name": "crash-tickets", "pkg": SS, "kind": "rapid", "run": "^TestVerifC18CrashTickets$",
-         "quick": {"checks": 8, "shards": 1, "timeout": 300, "shrinktime": "10s"},
-         "thorough": {"checks": 6, "shards": 6, "timeout": 900, "shrinktime": "30s"}},
+         "quick": {"checks": 8, "shards": 1, "timeout": 300, "shrinktime": "4s"},
+         "thorough": {"checks": 30, "shards": 8, "timeout": 1200, "shrinktime": "30s"}},
     ],
 }
 
-TEXT = {"technique": "", "engine": "", "level_text": "", "level_note": ""}
+TEXT = {
+    "technique": ("rapid-generated histories of bridge starts against a model of the persisted identity; crash-point enumeration: "
+                  "the test binary re-executes itself under strace, the recorded file-system calls on the state directory are "
+                  "replayed prefix by prefix (plus torn prefixes of every write) on an in-memory copy of the pre-start directory, "
+                  "and a fresh start / ticket-store load runs on every crash state"),
+    "engine": "rapid + strace-recorded crash-state enumeration (in-package harness in transports/obfs4 and transports/scramblesuit, kit/crashfs)",
+    "level_text": ("Fault enumeration. For each traced start (first start, restart, restart with iat-mode override, restart with "
+                   "explicit credentials, first start with explicit credentials, restart with invalid iat-mode) and each traced "
+                   "storeTicket/getTicket sequence, every crash point of the recorded system-call sequence is visited: after each "
+                   "call, and inside each write at every byte (<= 512 bytes; boundaries and a spread above; thorough: every byte). "
+                   "The enumeration is complete for the recorded trace under the stated crash model; the traces themselves "
+                   "(pre-histories, credentials, ticket sequences) and the start histories of part (a) are sampled by rapid. "
+                   "Absence of violations for other traces, histories or crash models is not established."),
+    "level_note": ("Crash model: process kill; completed system calls persist in program order; single writes may be torn; fsync is "
+                   "a no-op, so a missing fsync or power-loss reordering is NOT detectable here. Trusted: strace output, the "
+                   "in-memory replayer (validated on every trace against the directory the helper left behind), x/crypto "
+                   "curve25519 and encoding/base64 as reference for the cert. After a failed FIRST start the model holds "
+                   "'unknown' and nothing is claimed until a start succeeds. A client handshake against the restarted bridge is "
+                   "covered by C02/C06, not here."),
+}
